@@ -570,6 +570,9 @@ def corr_cases(K, nprng, rng, n_per):
 
 # =================================================================================================
 def run(R: vlib.Run):
+    # idle OpenMP workers sleep instead of spinning: 16 workers on a shared machine otherwise burn ~10x the CPU of the sweep and
+    # slow everybody (incl. this check) down when the machine is loaded; must be set before the threading layer starts
+    os.environ.setdefault("OMP_WAIT_POLICY", "PASSIVE")
     import numba
     from sigpyproc.core import kernels as K
 
@@ -691,7 +694,7 @@ def run(R: vlib.Run):
             R.red.append(f"harness: runtime sweep has no case for parallel kernel {k}")
 
     # ---------------- correspondence ------------------------------------------------------------
-    cc = corr_cases(K, nprng, rng, 3 if quick else 10)
+    cc = corr_cases(K, nprng, rng, 4 if quick else 12)
     per = 60
     nshard = 0
     for i in range(0, len(cc), per):
@@ -758,8 +761,9 @@ def subband_callsite(R, K, nprng):
                 ok, why = tr.verdict()
                 if not ok or mx >= ns:
                     R.fail("owner-subband-callsite",
-                           "Filterbank.subband hands kernels.subband a chan_to_sub table that reaches nsubs: iteration isamp also updates row isamp+1 "
-                           "(two iterations store the same element; the last row is stored outside the buffer)",
+                           ("Filterbank.subband hands kernels.subband a chan_to_sub table that reaches nsubs: iteration isamp also updates row isamp+1 "
+                            "(two iterations store the same element; the last row is stored outside the buffer)") if mx >= ns else
+                           "in the kernel call made by Filterbank.subband an element is stored by more than one iteration of the parallel loop",
                            {"nchans": nch, "nsub": nsub, "max_chan_to_sub": mx, "nsubs": ns, "conflict": why, "tracer_error": tr.error,
                             "replay": f"FilReader(<8-bit file, {nch} channels, {N} samples>).subband(dm=0, nsub={nsub}, gulp=16)"})
                     break
